@@ -42,7 +42,7 @@ REQUIRED = ['vhost_request_without_a_host_header', 'second_check_on_same_request
             'refused_tampered_response', 'refused_field_digest_mismatch', 'malformed_digest_header_sent', 'unknown_scheme_sent',
             'absent_user_password_None_sent', 'basic_default_encrypt_valid_sent',
             'e2e_secret_served', 'e2e_refused', 'e2e_challenge_401',
-            'session_data_returned_to_owner', 'session_stolen_sid_other_ip', 'session_stolen_sid_other_agent', 'session_forged_sid',
+            'session_data_returned_to_owner', 'session_handler_raised_before_next_request', 'session_stolen_sid_other_ip', 'session_stolen_sid_other_agent', 'session_forged_sid',
             'session_fresh_ids_issued', 'session_e2e_steps',
             'vhost_forwarded_host_honoured_for_gateway', 'vhost_untrusted_remote_sends_forwarded_host', 'vhost_e2e_cases',
             'authcomp_cases', 'authcomp_two_instances_in_one_process', 'authcomp_stock_admin_account_tried_against_a_passwd_file',
@@ -572,33 +572,68 @@ class SessionWorld:
         if self.wsgi:
             from circuits.web.wsgi import Application
 
-            def index(ctl, w=None):
-                seen = dict(ctl.session)
-                if w:
-                    with ctl.session as d:
-                        d['k'] = w
-                return json.dumps({'sid': ctl.session.sid, 'data': seen})
+            index, boom, base = self._handlers()
             self.w = Application()
-            type('Root', (Controller,), {'index': index})().register(self.w)
+            type('Root', (base,), {'index': index, 'boom': boom})().register(self.w)
         if self.e2e:
             from circuits.web.dispatchers import Dispatcher
             from circuits.web.http import HTTP
 
-            def index(ctl, w=None):
-                seen = dict(ctl.session)
-                if w:
-                    with ctl.session as d:
-                        d['k'] = w
-                return json.dumps({'sid': ctl.session.sid, 'data': seen})
+            index, boom, base = self._handlers()
             HTTP(self.w).register(self.w)
             Dispatcher().register(self.w)
-            type('Root', (Controller,), {'index': index})().register(self.w)
+            type('Root', (base,), {'index': index, 'boom': boom})().register(self.w)
         self.sessions.register(self.w)
         if self.wsgi:
             while len(self.w):
                 self.w.flush()
         else:
             self.w.settle()
+
+    def _handlers(self):
+        """The request handlers of the application: `index` shows (and stores) session data, `boom` looks at its session and raises.
+        case['ctl'] == 'json': a JSONController, whose handlers return the document instead of its text."""
+        from circuits.web import Controller, JSONController
+        as_json = self.case.get('ctl') == 'json'
+
+        def index(ctl, *args, w=None, **kw):
+            seen = dict(ctl.session)
+            if w:
+                with ctl.session as d:
+                    d['k'] = w
+            doc = {'sid': ctl.session.sid, 'data': seen}
+            return doc if as_json else json.dumps(doc)
+
+        def boom(ctl, *args, **kw):
+            dict(ctl.session)
+            raise RuntimeError('application error')
+        return index, boom, (JSONController if as_json else Controller)
+
+    def fail_request(self, client, cookie):
+        """A request of `client` whose handler raises (answered 500, nothing to judge in itself) -> True if it was answered 500"""
+        from vlib.inject import FakeSock
+        if self.wsgi:
+            headers = [('Host', 'test.example')]
+            if client.get('agent') is not None:
+                headers.append(('User-Agent', client['agent']))
+            if cookie is not None:
+                headers.append(('Cookie', '%s=%s' % (self.name, cookie)))
+            env = wsgi_environ(client['ip'], '/boom', headers, env_order=self.case.get('env_order', 'addr-first'))
+            status, rh, body = wsgi_call(self.w, env)
+            return status.startswith('500')
+        if self.e2e:
+            sock = FakeSock(peer=(client['ip'], 40000 + len(client['ip'])))
+            try:
+                lines = ['GET /boom HTTP/1.1', 'Host: test.example']
+                if client.get('agent') is not None:
+                    lines.append('User-Agent: ' + client['agent'])
+                if cookie is not None:
+                    lines.append('Cookie: %s=%s' % (self.name, cookie))
+                self.w.feed(sock, [('\r\n'.join(lines) + '\r\n\r\n').encode('ascii')])
+                return self.w.written(sock).startswith(b'HTTP/1.1 500')
+            finally:
+                sock.close()
+        return False
 
     def step(self, client, cookie, write, hdrs=()):
         """-> (sid given to the request, data visible to the request, cookie value sent back)"""
@@ -762,6 +797,10 @@ def run_session(case):
         if write:
             tokens.add(write)
             data.setdefault(sid, {})['k'] = write
+        if st.get('then_fail') and (world.e2e or world.wsgi):
+            # the same client, with the id it now holds, asks for a page whose handler raises; what the NEXT requests see is judged as usual
+            if world.fail_request(cl, sid):
+                marks.add('session_handler_raised_before_next_request')
     return problems, {k: v for k, v in oks.items() if v}, marks, nontrivial
 
 
@@ -1201,8 +1240,10 @@ def S(clients, steps, **kw):
     return c
 
 
-def step(client, cookie=None, write=None, claims=None):
+def step(client, cookie=None, write=None, claims=None, then_fail=False):
     st = {'client': client, 'cookie': cookie, 'write': write}
+    if then_fail:
+        st['then_fail'] = True
     if claims is not None:
         st['claims'] = claims
     return st
@@ -1230,6 +1271,11 @@ def session_corpus():
         # a forged id adopted by its presenter must not collide with anybody's id afterwards
         out.append(S(cl, [step(0, None, 'tok-a'), step(1, ['graft', 0], 'tok-g'), step(1, ['own']), step(0, ['own']), step(2, ['of', 1]),
                           step(0, ['of', 1])], via=via))
+    # a handler that raises must not leave its request's session behind for the next request to the same controller
+    for via in ('e2e', 'wsgi'):
+        for ctl in ('plain', 'json'):
+            out.append(S(cl, [step(0, None, 'tok-a'), step(0, ['own'], then_fail=True), step(1, None), step(1, ['own'], 'tok-b', then_fail=True),
+                              step(2, ['of', 1]), step(0, ['own'], then_fail=True), step(0, ['own']), step(3, ['forged', 'a/b'])], via=via, ctl=ctl))
     # observation (not asserted): different (ip, agent) whose concatenation collides
     amb = [{'ip': '10.0.0.1', 'agent': '1 Mozilla'}, {'ip': '10.0.0.11', 'agent': ' Mozilla'}]
     out.append(S(amb, [step(0, None, 'tok-a'), step(0, ['own']), step(1, ['of', 0])], fp_concat=True))
@@ -1448,6 +1494,13 @@ def gen_session(rng):
     case = S(clients, steps, via='e2e' if r < 0.2 else 'wsgi' if r < 0.45 else 'direct', cookie_name=rng.choice(['circuits', 'circuits', 'sid']))
     if case['via'] == 'wsgi':
         case['env_order'] = rng.choice(['addr-first', 'addr-last'])
+    if case['via'] != 'direct':
+        r2 = random.Random(repr(steps))       # (a stream of its own: the cases generated before this option keep their shape)
+        if r2.random() < 0.5:
+            case['ctl'] = 'json'
+        for st in steps:
+            if r2.random() < 0.3:
+                st['then_fail'] = True
     return case
 
 
